@@ -153,12 +153,18 @@ pub fn run(a: &Args) {
 	let mut own_s1: Option<Slate> = None;
 	let mut own_reply: Option<Slate> = None;
 	let mut own_invoice: Option<Slate> = None;
+	let mut late_s1: Option<Slate> = None;
+	let mut late_reply: Option<Slate> = None;
 	let _ = (|| -> Result<(), libwallet::Error> {
 		let s1 = w.wallets[0].init_send(InitTxArgs { amount: 3_000_000_000, minimum_confirmations: 1, selection_strategy_is_use_all: false, ..Default::default() })?;
 		w.wallets[0].lock_outputs(&s1)?;
 		own_reply = w.wallets[1].receive(&s1, None).ok();
 		own_s1 = Some(s1);
 		own_invoice = Some(w.wallets[0].issue_invoice(IssueInvoiceTxArgs { amount: 2_000_000_000, ..Default::default() })?);
+		// a late-locked pending send (nothing reserved yet: inputs are selected when the reply is finalized)
+		let ls1 = w.wallets[0].init_send(InitTxArgs { amount: 2_500_000_000, minimum_confirmations: 1, selection_strategy_is_use_all: false, late_lock: Some(true), ..Default::default() })?;
+		late_reply = w.wallets[1].receive(&ls1, None).ok();
+		late_s1 = Some(ls1);
 		let _ = w.wallets[0].build_coinbase(&BlockFees { fees: 0, key_id: None, height: w.height() + 1 })?;
 		Ok(())
 	})();
@@ -298,7 +304,33 @@ pub fn run(a: &Args) {
 			}
 		} else if choice < 96 {
 			// finalize_tx with something that is not a validly counter-signed reply to an own slate
-			let slate: Slate = match rng.below(5) {
+			let slate: Slate = match rng.below(8) {
+				5 => {
+					// the victim's late-locked S1 echoed back as if it were a reply
+					let mut s = late_s1.clone().unwrap_or_else(|| Slate::blank(2, false));
+					s.state = grin_wallet_libwallet::SlateState::Standard2;
+					s
+				}
+				6 => {
+					// the genuine reply to the late-locked send with its partial signature damaged
+					let mut s = late_reply.clone().unwrap_or_else(|| Slate::blank(2, false));
+					for p in s.participant_data.iter_mut() {
+						if let Some(sig) = p.part_sig {
+							let mut raw = sig.to_raw_data();
+							raw[11] ^= 4;
+							p.part_sig = grin_util::secp::Signature::from_raw_data(&raw).ok();
+						}
+					}
+					s
+				}
+				7 => {
+					// ... or with another transaction's recipient data (signature made for other keys)
+					let mut s = late_reply.clone().unwrap_or_else(|| Slate::blank(2, false));
+					if let Some(o) = &own_reply {
+						s.participant_data = o.participant_data.clone();
+					}
+					s
+				}
 				0 => Slate::from(g.slate_v4(&mut rng, &mut st, 2)),
 				1 => own_s1.clone().unwrap_or_else(|| Slate::blank(2, false)), // the victim's own S1 echoed back
 				2 => {
